@@ -1,4 +1,5 @@
 """Expression helpers over the compact C IR (see cfront.N)."""
+import re
 from .common import AnalysisError
 
 CASTS = ("ParenExpr", "ImplicitCastExpr", "CStyleCastExpr")
@@ -61,8 +62,16 @@ def const_int(e):
         return e.v if isinstance(e.v, int) else None
     if k == "UnaryExprOrTypeTraitExpr" and e.v == "sizeof":
         t = ((e.x or {}).get("argType") or (e.kids[0].t if e.kids else "") or "").strip()
+        mult = 1
+        while True:
+            m = re.match(r"^(.*\S)\s*\[(\d+)\]$", t)
+            if not m:
+                break
+            t, mult = m.group(1).strip(), mult * int(m.group(2))
         w = _UWIDTH.get(t) or _SWIDTH.get(t) or {"float": 32, "double": 64}.get(t)
-        return w // 8 if w else None
+        if w is None and t.endswith("*"):
+            w = 64
+        return mult * w // 8 if w else None
     if k == "UnaryOperator" and e.v in ("-", "+", "~", "!"):
         v = const_int(e.kids[0])
         if v is None:
